@@ -406,6 +406,10 @@ impl Context {
             if task.state().is_error() {
                 if let Some(err) = task.err() {
                     if let Some(parent) = task.parent() {
+                        // an ancestor that is already completed keeps its state
+                        if parent.state().is_completed() {
+                            return Ok(());
+                        }
                         parent.set_err(&err);
                         return parent.error(self);
                     }
